@@ -387,6 +387,8 @@ pub fn run(cli: Cli) -> ! {
     #[derive(Clone)]
     enum Job {
         Disc(Vec<WireTarget>),
+        /// consecutive discovery replies on the same adapter instance (each judged on its own)
+        DiscHistory(Vec<Vec<WireTarget>>),
         Sel(usize, Reply, usize, usize, usize, i32),
     }
     let mut jobs: Vec<Job> = vec![];
@@ -396,6 +398,13 @@ pub fn run(cli: Cli) -> ! {
     for l in &lists {
         jobs.push(Job::Disc(l.clone()));
     }
+    // histories: the same (malformed or well-formed) reply repeated, a malformed reply between two good ones
+    for (h, p) in [(Some("1.2.3".to_string()), 1u32), (Some("10.1.2.3".to_string()), 65_536), (None, 25_565), (Some("10.1.2.3".to_string()), u32::MAX), (Some("not an address".to_string()), 1)] {
+        let bad = vec![good6.clone(), WireTarget { id: "bad".into(), host: h, port: p, meta: ms[1].clone() }];
+        jobs.push(Job::DiscHistory(vec![vec![good4.clone()], bad.clone(), bad.clone(), vec![good4.clone()], bad.clone()]));
+        jobs.push(Job::DiscHistory(vec![bad.clone(), bad.clone(), bad.clone()]));
+    }
+    jobs.push(Job::DiscHistory(vec![vec![good4.clone()], vec![good4.clone()], vec![good6.clone()], vec![], vec![], vec![good6.clone(), good4.clone()], vec![good4.clone(), good6.clone()]]));
     for (ci, cl) in cand_lists.iter().enumerate() {
         let mut replies = vec![Reply::None];
         for i in 0..cl.len().max(1) {
@@ -446,6 +455,11 @@ pub fn run(cli: Cli) -> ! {
                 let r = std::panic::AssertUnwindSafe(async {
                     match j {
                         Job::Disc(l) => check_discovery(cxr, &peer, l).await,
+                        Job::DiscHistory(ls) => {
+                            for l in ls {
+                                check_discovery(cxr, &peer, l).await;
+                            }
+                        }
                         Job::Sel(ci, r, c, s, u, p) => check_select(cxr, &peer, &cand_lists[*ci], r.clone(), clients[*c], servers[*s], users[*u], *p).await,
                     }
                 });
@@ -462,7 +476,7 @@ pub fn run(cli: Cli) -> ! {
     cx.rep.set("targets_crossed", json!(cx.ok_targets.load(Ordering::Relaxed)));
     cx.rep.set("rejected", json!(cx.rejected.load(Ordering::Relaxed)));
     cx.rep.set("exhaustive", json!(true));
-    cx.rep.set("rule", json!("RPCs against an in-process tonic server generated from the repository's .proto files: discovery replies over host text(20, incl. absent) x port(6) [x identifier(4) x metadata(6) in thorough], identifier x metadata on good IPv4/IPv6 addresses, lists of 0-3; select() over candidate lists (8 address shapes x metadata, ordered pairs) x reply (none, echo of the i-th candidate as received, out-of-range index, every host x port shape as a foreign reply) x client address, server address, player. Every job is distinct."));
+    cx.rep.set("rule", json!("RPCs against an in-process tonic server generated from the repository's .proto files: discovery replies over host text(20, incl. absent) x port(6) [x identifier(4) x metadata(6) in thorough], identifier x metadata on good IPv4/IPv6 addresses, lists of 0-3, 11 histories of 3-7 consecutive replies on one adapter instance (a malformed reply repeated, between and after well-formed ones); select() over candidate lists (8 address shapes x metadata, ordered pairs) x reply (none, echo of the i-th candidate as received, out-of-range index, every host x port shape as a foreign reply) x client address, server address, player. Every job is distinct."));
     cx.rep.sample(json!({"direction": "discovery-reply", "target": {"id": "a", "host": "2001:db8::1", "port": 25565, "meta": [["a", "b"]]}, "expect": "Target with address [2001:db8::1]:25565"}));
     cx.rep.sample(json!({"direction": "discovery-reply", "target": {"id": "a", "host": "10.1.2.3", "port": 65536}, "expect": "error"}));
     cx.rep.sample(json!({"direction": "select", "candidates": ["10.1.2.3:25565", "[2001:db8::1]:25565"], "reply": "Echo(1)", "expect": "the second candidate, unchanged"}));
